@@ -1069,6 +1069,28 @@ x\0\0z
 .|\n
 ''')
 
+# --- NUL sharing an equivalence class with other bytes (class numbered last / first; 2, 3, 4 classes) ---
+E('nul_share4', 'nul 8bit e1 nulshare', r'''
+%%
+[a-z]+
+[0-9]+
+[\xf0-\xff\0]+
+[^a-z0-9\xf0-\xff\0]
+''')
+
+E('nul_share2', 'nul 8bit e1 nulshare', r'''
+%%
+[\x80-\xff\0]+
+[^\x80-\xff\0]
+''')
+
+E('nul_share_first', 'nul e1 nulshare', r'''
+%%
+[\0\x01-\x1f]+x
+[\0\x01-\x1f]
+[^\0\x01-\x1f]
+''')
+
 # --- an automaton with more than 128 states (16-bit table elements) ----------------
 E('kw_many', 'big bigdfa', r'''
 %%
